@@ -24,7 +24,7 @@ KNOBS = {
     "W": [None],
     "p_stop": 0.15,
     "p_faults": 0.4,
-    "p_timeout": 0.05,
+    "p_timeout": 0.2,
     "p_cancel_fault": 0.12,
     "p_deps": 0.05,
     "durations": {"zero": 1, "tiny": 1, "short": 2, "medium": 4, "long": 4, "poll": 2},
@@ -48,17 +48,24 @@ def oracle(script: dict, run: Any) -> List[Violation]:
     bound = A + P + 1
     unfinished: Dict[str, int] = {}
     node_of_d: Dict[Any, str] = {}
+    open_parts: Dict[Any, set] = {}      # per delivery: which parts are still running ("cb" = callback(), "fn" = the task function)
     for e in h.events:
+        d = e[4]
         if e[3] == "take":
-            node_of_d[e[4]] = e[2]
+            node_of_d[d] = e[2]
+            open_parts[d] = {"cb"}
             unfinished[e[2]] = unfinished.get(e[2], 0) + 1
             if unfinished[e[2]] > bound:
                 out.append(Violation("C04/bound-exceeded",
                                      f"worker {e[2]} holds {unfinished[e[2]]} taken-but-unfinished messages > A+P+1={bound} at event {e[0]} (t={e[1]}us)",
                                      event=e[0], held=unfinished[e[2]], bound=bound))
                 break
-        elif e[3] == "cb_exit" and e[4] in node_of_d:
-            unfinished[node_of_d[e[4]]] -= 1
+        elif e[3] == "fn_enter" and d in open_parts and open_parts[d]:
+            open_parts[d].add("fn")
+        elif e[3] in ("cb_exit", "fn_exit") and d in node_of_d and open_parts.get(d):
+            open_parts[d].discard("cb" if e[3] == "cb_exit" else "fn")
+            if not open_parts[d]:
+                unfinished[node_of_d[d]] -= 1
     # conservation on the server: enqueued == taken + still queued
     w = h.world
     if w is not None:
